@@ -320,7 +320,7 @@ def order_probe(ctx, form=None):
 
 def explore(ctx, factor, bs):
     rng = ctx.rng
-    n = ctx.pick(700, 14000) * factor
+    n = ctx.pick(2000, 40000) * factor
     big = not ctx.quick()
     for i in range(n):
         form_case(ctx, c09gen.gen_form(rng, big=big))
